@@ -58,7 +58,8 @@ impl ScalarMap {
         // ID: send = string | number, receive = string
         map.insert("ID".into(), ["string | number".into(), "string".into(), "string".into(), "string | number".into()]);
         for (name, t) in &ix.types {
-            if t.kind == TKind::Scalar {
+            // the built-in scalars always have a configuration entry (the defaults), and the configuration wins
+            if t.kind == TKind::Scalar && !crate::schema_ix::BUILTIN_SCALARS.contains(&name.as_str()) {
                 if let Some(d) = t.dirs.iter().find(|d| d.name.s == "nitrogql_ts_type") {
                     let g = |k: &str| match d.arg(k) {
                         Some(Val::Str(s)) => Some(s.value.clone()),
